@@ -4,12 +4,18 @@ Sources == {"eu_3857_tile", "eu_32633_tile", "eu_4326_tile", "eu_3857_rot", "eu_
             \* other pixel orientations: rotated by 180 degrees (x res < 0, y res > 0), south-up, mirrored, off-lattice origin
             "eu_32633_rot180", "eu_4326_rot180", "eu_3857_southup", "eu_3857_mirrored", "eu_32633_offlattice",
             \* non-square pixels (degree- and metre-based)
-            "au_4326_nonsquare", "eu_32633_nonsquare"}
+            "au_4326_nonsquare", "eu_32633_nonsquare",
+            \* fine pixels whose outer edge lies a small fraction (0.5 %) of a COARSE output pixel past a coarse grid line
+            "eu_32633_nearline", "eu_4326_nearline"}
 \* 4283 (GDA94) and 4258 (ETRS89): geographic CRSs other than 4326 - same units as a degree-based source without being the same CRS
 Targets == {"4326", "3857", "3035", "6933", "32633", "3577", "utm", "utm-n", "utm-s", "4283", "4258"}
 OptSet == UNION { {[res |-> r, shape |-> "none", anchor |-> a, tight |-> t, tol |-> tl] : r \in {"auto", "fit", "explicit"}, a \in {"default", "edge", "center", "xy"}, t \in BOOLEAN, tl \in {<<1, 100>>, <<1, 10>>}},
                   {[res |-> "same", shape |-> "none", anchor |-> a, tight |-> t, tol |-> <<1, 100>>] : a \in {"default", "edge"}, t \in BOOLEAN},
-                  {[res |-> "auto", shape |-> s, anchor |-> a, tight |-> t, tol |-> <<1, 100>>] : s \in {"pair", "int"}, a \in {"default", "center"}, t \in BOOLEAN} }
+                  {[res |-> "auto", shape |-> s, anchor |-> a, tight |-> t, tol |-> <<1, 100>>] : s \in {"pair", "int"}, a \in {"default", "center"}, t \in BOOLEAN},
+                  \* a shape AND a numeric resolution in one request: the shape decides
+                  {[res |-> "explicit", shape |-> s, anchor |-> "default", tight |-> t, tol |-> <<1, 100>>] : s \in {"pair", "int"}, t \in BOOLEAN},
+                  \* output pixels hundreds of source pixels wide, with tolerances stricter than / equal to the default: the stated tolerance is owed
+                  {[res |-> "coarse", shape |-> "none", anchor |-> a, tight |-> FALSE, tol |-> tl] : a \in {"default", "center"}, tl \in {<<1, 1000000>>, <<1, 1000>>, <<1, 100>>}} }
 Valid(s, t) == \/ t \in {"4326", "3857", "6933", "utm", "utm-n", "utm-s"}
                \/ (t \in {"3035", "32633"} /\ s \notin {"au_3577_tile", "au_4326_tile", "au_4326_nonsquare", "equator_4326"})
                \/ (t \in {"3577", "4283"} /\ s \in {"au_3577_tile", "au_4326_tile", "au_4326_nonsquare"})
